@@ -45,7 +45,8 @@ ASSUMPTIONS = [
 ]
 PROBES = ["reconnect", "late-finaliser", "two-in-flight", "send-races-disconnect", "nonblocking-recv-empty", "nonblocking-recv-got", "callback-delivery",
           "structured", "silent", "broadcast", "broadcast-poll", "three-endpoints", "two-socket-ids", "connection-error-after-disconnect",
-          "recv-timeout", "lock-contended", "stalled-thread", "late-starter", "connect-timeout-then-retry", "connect-attempt-races-with-peer"]
+          "recv-timeout", "lock-contended", "stalled-thread", "late-starter", "connect-timeout-then-retry", "connect-attempt-races-with-peer",
+          "broadcast-endpoint-leaves-before-the-others-have-received"]
 
 _mods: Dict[str, Any] = {}
 
@@ -98,7 +99,8 @@ def gen_scenario(ch: Choices, calm: bool, no_cb_reconnect: bool = False, tier: s
                 for _ in range(ch.draw(3, "npoll")):
                     out.append(("bpoll", x))
         script = out
-        return {"names": names, "broadcast": True, "script": script, "chans": [], "callback": {}}
+        return {"names": names, "broadcast": True, "script": script, "chans": [], "callback": {},
+                "early_leave": ch.flag(1, 2, "early-leave")}
     pairs = [(names[i], names[j]) for i in range(n_ep) for j in range(i + 1, n_ep)]
     n_ch = 1 + ch.draw(4 if deep else 2, "nch")
     for _ in range(n_ch):
@@ -223,6 +225,7 @@ def run(ch: Choices, opts: Dict[str, Any]) -> Dict[str, Any]:
     lost_log: List[Tuple[int, str]] = []
     payload_ctr = [0]
     done_ctr = [0]
+    bsent_ctr = [0]
     sample = {"endpoints": names, "broadcast": sc["broadcast"], "script": sc["script"],
               "callback_receivers": [list(k) for k, v in sc["callback"].items() if v], "switch": sw}
 
@@ -376,6 +379,7 @@ def run(ch: Choices, opts: Dict[str, Any]) -> Dict[str, Any]:
                             finish(e, "ok")
                         except Exception as x:  # noqa: BLE001
                             finish(e, exc=type(x).__name__)
+                        bsent_ctr[0] += 1
                     elif ev[0] == "bpoll":
                         e = record(me, ("bpoll",))
                         try:
@@ -392,10 +396,19 @@ def run(ch: Choices, opts: Dict[str, Any]) -> Dict[str, Any]:
                             finish(e, r)
                         except Exception as x:  # noqa: BLE001
                             finish(e, exc=type(x).__name__)
-                # nobody leaves before everybody is done (a broadcast to a departed peer fails half-way by design)
+                # nobody leaves before every broadcast has been sent (a broadcast to a departed peer fails half-way by
+                # design); in half of the runs an endpoint may leave as soon as that is the case, while the others are
+                # still receiving what is queued for them -- otherwise everybody waits for everybody
                 done_ctr[0] += 1
-                while done_ctr[0] < len(names):
-                    sched.sleep(0.05)
+                n_bsend = sum(1 for ev2 in sc["script"] if ev2[0] == "bsend")
+                if sc.get("early_leave"):
+                    while bsent_ctr[0] < n_bsend:
+                        sched.sleep(0.05)
+                    if done_ctr[0] < len(names):
+                        bump(probes, "broadcast-endpoint-leaves-before-the-others-have-received")
+                else:
+                    while done_ctr[0] < len(names):
+                        sched.sleep(0.05)
                 e = record(me, ("bdrop",))
                 chan._sockets.clear()
                 del chan
